@@ -1,35 +1,7 @@
 import RegressModel.IR.Sem
 import RegressModel.IR.Optimize
+import RegressModel.IR.WfIR
 open Regress.IR Regress
-
-/-- Executable version of `Proofs.Lemmas.SemWalk.WF` (for checking the hypothesis of the C03/C04 theorems
-on IR produced by the real parser / optimizer). -/
-partial def decodeAll (bytes : Array Nat) (pos : Nat) (acc : List Nat) : Option (List Nat) :=
-  if pos == bytes.size then some acc.reverse
-  else match Utf8.nextRight bytes pos with
-    | .ok (some (c, p)) => decodeAll bytes p (c :: acc)
-    | _ => none
-
-def validUtf8 (bs : List Nat) : Bool :=
-  match decodeAll bs.toArray 0 [] with
-  | some cs => Utf8.encodeAll cs == bs && cs.all Utf8.isScalar
-  | none => false
-
-def quantOkB (q : Quant) : Bool := match q.max with | none => true | some m => decide (q.min ≤ m)
-
-mutual
-partial def wfB : Node → Bool
-  | .cat ns => ns.all wfB
-  | .alt l r => wfB l && wfB r
-  | .group _ _ c => wfB c
-  | .look _ _ _ _ c => wfB c
-  | .loop b q g0 g1 => wfB b && quantOkB q && (decide (numGroups b = 0) == decide (g1 ≤ g0))
-  | .loop1 b q => wfB b && quantOkB q && decide (numGroups b = 0)
-  | .bracket bc => CPS.wf (toIvList bc.ivs)
-  | .byteSeq bs => validUtf8 bs
-  | .byteSet bs => bs.all (· < 128)
-  | _ => true
-end
 
 def main (args : List String) : IO UInt32 := do
   let path := args.head!
@@ -48,11 +20,9 @@ def main (args : List String) : IO UInt32 := do
       if irOpt != lastIr then
         lastIr := irOpt
         for ir in [irOpt, irNo] do
-          match parseCanon ir with
-          | some n => if !wfB n then
-              notwf := notwf + 1
-              IO.println s!"NOT-WF {label} ir={ir}"
-          | none => IO.println s!"unparsable {ir}"
+          if wfIRLine ir != "wf" then
+            notwf := notwf + 1
+            IO.println s!"NOT-WF {label} ir={ir}"
       let a := semFindLine flags irOpt hay st
       let b := semFindLine flags irNo hay st
       let norm (s : String) : String := s.replace " " "_"
